@@ -31,10 +31,10 @@ def run(prop, tier):
     res.tlc(r, "Wal/two_crashes")
     if r["violated"]:
         raise Undecided("MODEL-DRIFT: Wal.tla with two crashes violates %s" % r["violated"])
-    scripts, r = W.gen_scripts(rng, 10)
+    scripts, r = W.gen_scripts(rng, 60 if quick else 300)
     res.tlc(r, "WalClient(simulate)")
-    rng.shuffle(scripts)
-    scripts = scripts[:(2 if quick else 12)]
+    scripts, covered = W.pick_scripts(rng, scripts, 2 if quick else 12)
+    res.cov["script_features_covered"] = sorted(covered)
     n1 = n2 = 0
     leftovers = {}
     for si, script in enumerate(scripts):
@@ -44,15 +44,50 @@ def run(prop, tier):
         pts = W.kill_points(events)
         # first-level crash points: where a WAL with committed transactions is left behind
         cand = [j for j in pts if W.marker_state(events, j, meta)[0]]
-        cand = rng.sample(cand, min(len(cand), 3 if quick else 12))
-        for j in sorted(cand):
+        # the end of the history (most transactions waiting in the WAL) always; the rest sampled
+        def pending(j):
+            """acknowledged requests not yet covered by a completed checkpoint at crash point j"""
+            n = 0
+            for e in events[:j]:
+                if e["k"] != "mark":
+                    continue
+                parts = e["text"].split()
+                if len(parts) < 5 or parts[2] != "done":
+                    continue
+                kind, _ = meta[int(parts[4])]
+                if kind == "ckpt":
+                    n = 0
+                elif kind == "req" and parts[5] == "ok":
+                    n += 1
+            return n
+        best = sorted(cand, key=lambda j: (-pending(j), -j))
+        heavy = []
+        for j in best:          # the latest point of each of the two largest backlogs
+            if pending(j) >= 1 and pending(j) not in [pending(h) for h in heavy]:
+                heavy.append(j)
+            if len(heavy) == 2:
+                break
+        cand = sorted(set(rng.sample(cand, min(len(cand), 1 if quick else 10))) | {pts[-1]} | set(heavy))
+        # each first-level point twice: process kill (page cache survives) and power loss that keeps the synced WAL but
+        # loses the not yet synced record data of the primary files - then the leftover WAL is really needed
+        firsts = []
+        for j in cand:
+            firsts.append((j, None))
+            vol = W.volatile_writes(events, j)
+            prim = set(i for p_, v in vol.items() if not p_.endswith(".walfile") for i in v if not W.is_creation_metadata(events[i]))
+            if prim:
+                firsts.append((j, dict(label="primaries-lost-wal-kept", dropped=prim, torn={})))
+        for j, var in firsts:
             if W.empty_bins_of(events, j):
                 continue      # KF-C03-2 territory
             issued, acked = W.marker_state(events, j, meta)
-            im = walrec.Image()
-            for e in events[:j]:
-                if e["k"] in walrec.MUTATING:
-                    im.apply(e)
+            if var is None:
+                im = walrec.Image()
+                for e in events[:j]:
+                    if e["k"] in walrec.MUTATING:
+                        im.apply(e)
+            else:
+                im = W.build_power_image(events, j, var)
             root1 = os.path.join(vlib.scratch(), "c34_l1")
             im.materialise(root1)
             n1 += 1
@@ -90,9 +125,9 @@ def run(prop, tier):
             for k in pts2:
                 n2 += 1
                 o = robs.get(json.dumps(k))
-                where = "script %d: kill after event %d of the write history (issued %s acked %s), then kill after event %d of the start-up replay" % (
-                    si, j, sorted(issued), sorted(acked), k)
-                replay = {"check": "walrecov", "script": script, "conc": conc.describe(), "crash1": j, "crash2": k, "seed": vlib.seed(),
+                where = "script %d: %s after event %d of the write history (issued %s acked %s), then kill after event %d of the start-up replay" % (
+                    si, "kill" if var is None else "power loss (primary record data since the last sync lost, WAL kept)", j, sorted(issued), sorted(acked), k)
+                replay = {"check": "walrecov", "script": script, "conc": conc.describe(), "crash1": j, "crash1_variant": (None if var is None else {"label": var["label"], "dropped": sorted(var["dropped"])}), "crash2": k, "seed": vlib.seed(),
                           "wal_files_in_image": info[json.dumps(k)]}
                 pt = dict(si=si, j=j, issued=issued, acked=acked, obs=o, pred=None, run=dict(script=script, conc=conc))
                 jd = W.judge_point(pt)
